@@ -266,47 +266,46 @@ def kernel_crosscheck(pid, coq_terms, expected, imports='Base DirectedModel Dire
 
 
 # ---------------------------------------------------------------- shrinking (delta debugging over ';'-separated ops)
+def _ddmin(items, fails_one, budget_s=40):
+    """delta debugging on a list: remove chunks (halves, quarters, ... single items) while the failure persists; stops after budget_s seconds"""
+    t0 = time.time(); n = 2
+    while len(items) >= 2 and time.time() - t0 < budget_s:
+        size = max(1, len(items) // n); removed = False
+        for start in range(0, len(items), size):
+            cand = items[:start] + items[start + size:]
+            if time.time() - t0 > budget_s: break
+            if fails_one(cand): items = cand; n = max(n - 1, 2); removed = True; break
+        if not removed:
+            if size == 1: break
+            n = min(len(items), n * 2)
+    return items
+
+
 def shrink_history(case, fails_batch, max_rounds=30):
-    """case = 'HEAD : op ; op ; ...'.  fails_batch(list of cases) -> list of bool.  Greedy one-op deletion to a fixpoint."""
+    """case = 'HEAD : op ; op ; ...'.  fails_batch(list of cases) -> list of bool.  Delta debugging over the op list (time-limited)."""
     head, body = case.split(':', 1)
     ops = [o.strip() for o in body.split(';') if o.strip()]
     mk = lambda o: head.rstrip() + ' : ' + ' ; '.join(o)
-    for _ in range(max_rounds):
-        if len(ops) <= 1: break
-        cands = [ops[:k] + ops[k + 1:] for k in range(len(ops))]
-        res = fails_batch([mk(c) for c in cands])
-        nxt = None
-        for c, r in zip(cands, res):
-            if r: nxt = c; break
-        if nxt is None: break
-        ops = nxt
+    ops = _ddmin(ops, lambda o: fails_batch([mk(o)])[0])
     return mk(ops)
 
 
 def shrink_ops(case, fails_batch, max_rounds=40):
-    """Generalisation to 'HEAD : ops | tail' and 'EQ ... : ops | ops': greedy one-op deletion in every ';'-separated op list of the case
+    """Generalisation to 'HEAD : ops | tail' and 'EQ ... : ops | ops': delta debugging in every ';'-separated op list of the case
     (for an EQ case both histories, for the others only the part before the first '|'); hex-encoded file cases are left alone."""
     head, body = case.split(':', 1)
     kind = head.split()[0]
     if kind in ('BIN', 'TXT', 'NOFILE'): return case
     parts = body.split('|')
-    nlists = 2 if kind == 'EQ' else 1
+    nlists = 2 if kind in ('EQ', 'EQF') else 1
     lists = [[o.strip() for o in parts[k].split(';') if o.strip()] if k < len(parts) else [] for k in range(nlists)]
     def mk(ls):
         ps = [' ' + ' ; '.join(l) + ' ' for l in ls] + parts[nlists:]
         return head.rstrip() + ' :' + '|'.join(ps)
-    for _ in range(max_rounds):
-        cands = []
-        for k in range(nlists):
-            for d in range(len(lists[k])):
-                c = [list(l) for l in lists]; del c[k][d]; cands.append(c)
-        if not cands: break
-        res = fails_batch([mk(c) for c in cands])
-        nxt = None
-        for c, r in zip(cands, res):
-            if r: nxt = c; break
-        if nxt is None: break
-        lists = nxt
+    for k in range(nlists):
+        def fails_one(l, k=k):
+            ls = [list(x) for x in lists]; ls[k] = l; return fails_batch([mk(ls)])[0]
+        lists[k] = _ddmin(lists[k], fails_one, budget_s=35)
     return mk(lists)
 
 
